@@ -78,6 +78,12 @@ def extractTop (h : Heap) : Option (Heap × Bool × Int) :=
       | some d' => some ({ h with data := d' }, true, bestval)
     | _, _ => none
 
+/-- `esl_heap_IExtractTop(hp, NULL)` ("to simply delete the topmost value, pass NULL for opt_val").
+    As written, `if (hp->n == 0) { *opt_val = 0; return eslEOD; }` stores through the NULL pointer: fault. -/
+def extractTopNull (h : Heap) : Option (Heap × Bool) :=
+  if h.data.size = 0 then none
+  else (extractTop h).map fun (h', ok, _) => (h', ok)
+
 /-- `esl_heap_IGetTopVal` -/
 def topVal (h : Heap) : Int := match h.data[0]? with | some v => v | none => 0
 
